@@ -29,6 +29,16 @@ Fixpoint check_difat_cells (cells : list N) : res unit :=
               else check_difat_cells t
   end.
 
+(* the cells of a DIFAT sector.  On a truncated last sector each cell is checked as soon as it
+   has been read, so an invalid cell among the complete ones is reported before the end of the
+   file is hit; otherwise the read fails with UnexpectedEof. *)
+Definition read_difat_sector (im : list (list byte)) (sl cur : N) : res (list N) :=
+  let raw := img_read im (cur + 1) 0 sl in
+  if lenN raw <? sl then
+    rbind (check_difat_cells (takeN (sl / 4 - 1) (u32s (takeN (4 * (lenN raw / 4)) raw))))
+          (fun _ => Err EUnexpectedEof)
+  else read_sector_u32s im sl cur (sl / 4).
+
 Fixpoint difat_loop (fuel : nat) (strict : bool) (im : list (list byte)) (sl ns : N)
          (cur : N) (seen ids difat : list N) : res (list N * list N) :=
   match fuel with
@@ -38,7 +48,7 @@ Fixpoint difat_loop (fuel : nat) (strict : bool) (im : list (list byte)) (sl ns 
     if MAX_REGULAR_SECTOR <? cur then Err EInvalidData else
     if ns <=? cur then Err EInvalidData else
     if memN cur seen then Err EInvalidData else
-    rbind (read_sector_u32s im sl cur (sl / 4)) (fun cells =>
+    rbind (read_difat_sector im sl cur) (fun cells =>
     let entries := takeN (sl / 4 - 1) cells in
     rbind (check_difat_cells entries) (fun _ =>
     match nthN cells (sl / 4 - 1) with
